@@ -628,11 +628,32 @@ func (x *Exec) loopHeader(f *Frame, st *State, b *ssa.BasicBlock, prev *ssa.Basi
 			}
 		}
 	}
-	// havoc iterator positions
-	for id, it := range st.iters {
-		_ = id
-		it.Idx = x.freshTerm("it_idx", SInt)
-		st.assume(And(Ge(it.Idx, IntLit(0)), Le(it.Idx, it.N)))
+	// havoc iterator positions - only if this loop can advance an iterator created before it: its blocks call Next on an
+	// iterator or hand an iterator to a callee (an inner loop over a slice leaves the position of an enclosing store walk alone)
+	advances := false
+	for blk := range body {
+		for _, ins := range blk.Instrs {
+			ci, ok := ins.(ssa.CallInstruction)
+			if !ok {
+				continue
+			}
+			cc := ci.Common()
+			if cc.IsInvoke() && cc.Method.Name() == "Next" && strings.Contains(types.TypeString(cc.Value.Type(), nil), "Iterator") {
+				advances = true
+			}
+			for _, a := range cc.Args {
+				if strings.Contains(types.TypeString(a.Type(), nil), "Iterator") {
+					advances = true
+				}
+			}
+		}
+	}
+	if advances {
+		for id, it := range st.iters {
+			_ = id
+			it.Idx = x.freshTerm("it_idx", SInt)
+			st.assume(And(Ge(it.Idx, IntLit(0)), Le(it.Idx, it.N)))
+		}
 	}
 	env = x.frameEnv(f, st, b)
 	x.addTopLets(env)
